@@ -891,6 +891,7 @@ def create_substitution_model(id_, model, arg):
             if alignment is not None:
                 rel_rates = torch.tensor(calculate_substitutions(alignment, mapping))
                 rates["tensor"] = (rel_rates[:-1] / rel_rates[:-1].sum()).tolist()
+                del rates["full"]
             if model == "SYM":
                 frequencies[CONSTRAINT.LOWER.value] = frequencies[
                     CONSTRAINT.UPPER.value
